@@ -64,9 +64,9 @@ class Rule:
             for idx, ex_i in enumerate(doc["examples"]):
                 doc["examples"][idx] = ex_i.strip()
 
-        cast = spec.get("cast")
-        for cast_from in list((cast or {}).keys()):
-            cast_to = cast.pop(cast_from)
+        cast_spec = spec.get("cast")
+        cast = None if cast_spec is None else {}  # a new dict; the spec is not modified
+        for cast_from, cast_to in (cast_spec or {}).items():
             try:
                 cast_from = CAST_DTYPE_LOOKUP[cast_from]
             except KeyError:
